@@ -38,6 +38,15 @@ for m in sorted(glob.glob(os.path.join(V, "seeded", "*", "meta.json"))):
         "yes" if c.get("repository_suite_passes_with_change") else "see note",
         "yes" if c.get("demo_fails_with_change") else "NO", "yes" if c.get("demo_passes_on_unmodified_tree") else "NO",
         c.get("checks_run_quick_tier(exit 1 = detected)", ""), hist.replace("|", "/")))
+out.append("\n**Behaviour-preserving refactors** (`/verif/benign/<id>/`, `tools/benign_eval.sh`): every check must stay silent (exit 0) on each.  The outcome recorded is that of the first evaluation; where a driver did not build (exit 2) the remedy is in §9 and the re-run was silent.\n")
+out.append("| id | changed lines | repository suite | checks not exiting 0 at first evaluation |")
+out.append("|---|---|---|---|")
+for m in sorted(glob.glob(os.path.join(V, "benign", "*", "result.json"))):
+    d = json.load(open(m))
+    bad = ", ".join("%s=%d" % (k, v) for k, v in sorted(d["checks_exit_codes"].items()) if v != 0) or "none"
+    if d.get("first_evaluation"):
+        bad = d["first_evaluation"] + " → now none"
+    out.append("| %s | %d | %s | %s |" % (os.path.basename(os.path.dirname(m)), d.get("patch_lines", 0), "passes" if d.get("repository_suite_passes") else "FAILS", bad))
 txt = "\n".join(out)
 dp = os.path.join(V, "DESIGN.md")
 s = open(dp).read()
